@@ -539,7 +539,10 @@ Definition flow_model_ok (T : tables) (c : flow_case) : bool :=
   match run_flow T c with
   | (fs, rep, e) =>
       opt_err_eqb e (f_err c)
-      && same_set file_eqb fs (f_files c)
+      && (same_set file_eqb fs (f_files c)
+          || match f_mode c, e with MDask, Some _ => true | _, _ => false end)
+         (* a parallel observation that fails: which of the OTHER runs' files got written before the
+            exception surfaced is a matter of scheduling; only the outcome is compared *)
       && match e with None => same_set entry_eqb rep (f_rep c) | Some _ => true end
   end.
 
